@@ -632,5 +632,12 @@ def main(ctx):
             return bool(ma) and ma[-1] == ("m", "a", "sort")
         return True
 
+    def seq_must_raise(hist, call):
+        # after the in-place edit a[0] = a[2] the first array holds a repeated value: match must reject it
+        if call[0] != "match" or call[1] != "a":
+            return False
+        return any(e == ("m", "a", "dup") for e in hist)
+
     call_sequences(ctx, "call-sequences", make_pool, SEQ_CALLS, seq_run, lambda: [nu], depth=ctx.pick(3, 4),
-                   mutations=SEQ_MUT, mutate=seq_mutate, enabled_after=seq_enabled, nodedup_depth=ctx.pick(3, 3))
+                   mutations=SEQ_MUT, mutate=seq_mutate, enabled_after=seq_enabled, nodedup_depth=ctx.pick(3, 3),
+                   must_raise=seq_must_raise)
